@@ -616,6 +616,11 @@ def subscript(I, base, key):
         except IndexError:
             raise SymRaise("IndexError", "index out of range")
     if isinstance(base, Vec):
+        if isinstance(key, tuple) and Ellipsis in key and key.count(Ellipsis) == 1:
+            # x[..., None] / x[None, ...]: the ellipsis stands for all the array's own axes
+            nd = len(_vshape(base))
+            i = key.index(Ellipsis)
+            key = key[:i] + (slice(None, None, None),) * (nd - sum(1 for k in key if k is not None and k is not Ellipsis)) + key[i + 1:]
         if isinstance(key, tuple):
             # weights[:, None] - broadcasting marker, element-wise model keeps the items
             if len(key) == 2 and key[0] == slice(None, None, None) and key[1] is None:
@@ -684,7 +689,7 @@ def subscript(I, base, key):
         raise SymRaise("TypeError", f"'{base.cls.name}' object is not subscriptable")
     if _alg(base):
         e = to_expr(base)
-        if isinstance(key, tuple) and all(k is None or k == slice(None, None, None) for k in key):
+        if isinstance(key, tuple) and all(k is None or k is Ellipsis or k == slice(None, None, None) for k in key):
             return e
         if e in I.arrays or any(s in I.arrays for s in e.free_symbols):
             if isinstance(key, (slice,)) or (isinstance(key, sp.Expr) and key.is_Integer):
@@ -1017,6 +1022,14 @@ def value_attr(I, obj, name):
             return ViewVec(obj, lambda x: part(to_expr(x)), obj.col)
         if name == "T":
             return obj
+        if name == "flags":
+            from .symval import VecFlags
+            return VecFlags(obj)
+    from .symval import VecFlags as _VF
+    if isinstance(obj, _VF):
+        if name == "writeable":
+            return not getattr(obj.vec, "readonly", False)
+        raise AnalysisError(f"ndarray.flags.{name} is not modelled")
     if isinstance(obj, SigVal):
         if name in ("bind", "bind_partial"):
             partial = name == "bind_partial"
@@ -1577,6 +1590,25 @@ def external(I, dotted):
     if dotted == "itertools.permutations":
         import itertools as _it2
         return Builtin(dotted, lambda it, r=None: GenVal([tuple(c) for c in _it2.permutations(iterate(I, it), None if r is None else concrete_int(r))]))
+    if dotted in ("importlib", ):
+        return ModuleVal(dotted, external=dotted)
+    if dotted == "importlib.import_module":
+        def import_module(name_, package=None):
+            if not isinstance(name_, str):
+                raise AnalysisError("import_module of a symbolic name")
+            nm = name_
+            if nm.startswith("."):
+                nm = nm.lstrip(".")
+            elif nm.startswith("periodictable."):
+                nm = nm[len("periodictable."):]
+            elif nm == "periodictable":
+                nm = "__init__"
+            else:
+                return external(I, nm)
+            if nm not in I.src.modules:
+                raise SymRaise("ModuleNotFoundError", name_)
+            return ModuleVal(nm)
+        return Builtin(dotted, import_module)
     if dotted == "itertools.chain":
         return Builtin(dotted, lambda *its: GenVal([x for it in its for x in iterate(I, it)]))
     if dotted == "itertools.chain.from_iterable":
@@ -1847,7 +1879,7 @@ def _math(I, name):
             if isinstance(x, Vec):
                 if wdep(I, x) and axis is None:
                     raise SymRaise("ShapeError", "sum without axis reduces over the wavelength axis as well")
-                if axis is not None and concrete_int(axis) != 0:
+                if axis is not None and concrete_int(axis) != 0 and not (concrete_int(axis) == -1 and not wdep(I, x)):
                     raise SymRaise("ShapeError", f"sum over axis {axis} is not the material axis")
                 acc = sp.Integer(0)
                 for e in x:
